@@ -207,6 +207,35 @@ Section GsProof.
   Lemma cols_of_length k n (Y : mat) : length (cols_of k n Y) = n.
   Proof. unfold cols_of. rewrite map_length, seq_length. reflexivity. Qed.
 
+  Lemma hlle_gs_length k d (prev V : mat) :
+    gs_nondegenerate (hlle_gs_sf false k d prev V) ->
+    length (hlle_gs_sf false k d prev V) = hlle_ncols d.
+  Proof.
+    intros Hnd. unfold hlle_gs_sf in *.
+    pose proof (mgs_sf_rel k [] [] _ (gs_rel_nil k) Hnd) as H. cbn [app] in H.
+    rewrite (gs_rel_length k _ _ H). apply cols_of_length.
+  Qed.
+
+  (* every H column (index >= 1 + d) is orthogonal to the input columns 0 .. d *)
+  Lemma hlle_tail_orth k d (prev V : mat) un j :
+    gs_nondegenerate (hlle_gs_sf false k d prev V) ->
+    In un (skipn (1 + d) (hlle_gs_sf false k d prev V)) -> j < 1 + d ->
+    dot k (fst un) (mcol (hlle_Yprod false d prev V) j) = 0.
+  Proof.
+    intros Hnd Hin Hj.
+    pose proof (hlle_gs_length k d prev V Hnd) as Hlen.
+    unfold hlle_gs_sf in *.
+    set (Y := hlle_Yprod false d prev V) in *.
+    set (cols := cols_of k (hlle_ncols d) Y) in *.
+    apply (In_nth _ _ (fun _ => 0, 0)) in Hin. destruct Hin as [m [Hm Hnth]].
+    rewrite skipn_length in Hm. rewrite nth_skipn' in Hnth.
+    pose proof (gs_later_orth_earlier_input k cols (1 + d + m) j (fun _ => 0, 0) (fun _ => 0) Hnd
+                  ltac:(lia) ltac:(unfold cols; rewrite cols_of_length; lia)) as Hz.
+    unfold cols in Hz at 2.
+    rewrite cols_of_nth in Hz by (unfold hlle_ncols; lia).
+    rewrite dot_memo_r in Hz. rewrite <- Hnth. exact Hz.
+  Qed.
+
   Theorem hlle_local_annihilates k d (prev V : mat) a :
     gs_nondegenerate (hlle_gs_sf false k d prev V) ->
     a < k ->
@@ -215,32 +244,122 @@ Section GsProof.
   Proof.
     intros Hnd Ha. unfold hlle_local_sf, hlle_local_of.
     set (Y := hlle_Yprod false d prev V).
-    set (cols := cols_of k (hlle_ncols d) Y).
-    assert (HU : hlle_gs_sf false k d prev V = mgs_sf k [] cols) by reflexivity.
-    rewrite HU in *.
-    assert (Hlen : length (mgs_sf k [] cols) = hlle_ncols d).
-    { pose proof (mgs_sf_rel k [] [] cols (gs_rel_nil k) Hnd) as H. cbn [app] in H.
-      rewrite (gs_rel_length k _ _ H). apply cols_of_length. }
-    (* every H column is orthogonal to input columns 0 .. d *)
-    assert (Horth : forall un j, In un (skipn (1 + d) (mgs_sf k [] cols)) -> j < 1 + d ->
-                                 dot k (fst un) (mcol Y j) = 0).
-    { intros un j Hin Hj.
-      apply (In_nth _ _ (fun _ => 0, 0)) in Hin. destruct Hin as [m [Hm Hnth]].
-      rewrite skipn_length in Hm. rewrite nth_skipn' in Hnth.
-      pose proof (gs_later_orth_earlier_input k cols (1 + d + m) j (fun _ => 0, 0) (fun _ => 0) Hnd
-                    ltac:(lia) ltac:(unfold cols; rewrite cols_of_length; lia)) as Hz.
-      unfold cols in Hz at 2.
-      rewrite cols_of_nth in Hz by (unfold hlle_ncols; lia).
-      rewrite dot_memo_r in Hz. rewrite <- Hnth. exact Hz. }
     split.
-    - rewrite (sumn_ext k _ (fun b => outer_sum_sf (skipn (1 + d) (mgs_sf k [] cols)) a b * mcol Y 0%nat b)).
-      + apply outer_sum_kills. intros un Hin. apply Horth; [assumption|lia].
+    - rewrite (sumn_ext k _ (fun b => outer_sum_sf (skipn (1 + d) (hlle_gs_sf false k d prev V)) a b
+                                      * mcol Y 0%nat b)).
+      + apply outer_sum_kills. intros un Hin. apply hlle_tail_orth; [assumption|assumption|lia].
       + intros b Hb. unfold mcol, Y.
         destruct (hlle_Yprod_entries d prev V b) as [H0 _]. rewrite H0. ring.
     - intros t Ht.
-      rewrite (sumn_ext k _ (fun b => outer_sum_sf (skipn (1 + d) (mgs_sf k [] cols)) a b * mcol Y (S t) b)).
-      + apply outer_sum_kills. intros un Hin. apply Horth; [assumption|lia].
+      rewrite (sumn_ext k _ (fun b => outer_sum_sf (skipn (1 + d) (hlle_gs_sf false k d prev V)) a b
+                                      * mcol Y (S t) b)).
+      + apply outer_sum_kills. intros un Hin. apply hlle_tail_orth; [assumption|assumption|lia].
       + intros b Hb. unfold mcol, Y.
         destruct (hlle_Yprod_entries d prev V b) as [_ [H1 _]]. rewrite (H1 t Ht). reflexivity.
   Qed.
+
+  (* ================= the loop as written (with sqrt) equals the sqrt-free form ================= *)
+  Section WithSqrt.
+    Variable sqrtf : F -> F.
+    Variable gt_thr : F -> bool.
+
+    (* contract of the value oracle on the squared norms that occur *)
+    Definition sqrt_ok (U : ulist) : Prop :=
+      forall un, In un U -> sqrtf (snd un) * sqrtf (snd un) = snd un /\ snd un <> 0.
+
+    Definition qrel (k : nat) (q : vec) (un : vec * F) : Prop :=
+      forall a, a < k -> q a = fst un a / sqrtf (snd un).
+
+    Lemma sqrt_ne0 x : sqrtf x * sqrtf x = x -> x <> 0 -> sqrtf x <> 0.
+    Proof. intros H Hx K. apply Hx. rewrite <- H, K. ring. Qed.
+
+    Lemma orth_equiv k Q U (v1 v2 : vec) :
+      Forall2 (qrel k) Q U -> sqrt_ok U ->
+      (forall a, a < k -> v1 a = v2 a) ->
+      forall a, a < k -> mgs_orth k Q v1 a = mgs_orth_sf k U v2 a.
+    Proof.
+      intros HR. revert v1 v2. induction HR as [|q un Q U Hq HR IH]; intros v1 v2 Hs Hv a Ha.
+      - cbn. apply Hv. assumption.
+      - unfold mgs_orth, mgs_orth_sf. cbn [fold_left].
+        apply IH; [intros x Hx; apply Hs; right; assumption| |assumption].
+        clear a Ha. intros a Ha. cbv zeta. rewrite !memo_vec_at by assumption.
+        destruct (Hs un (or_introl eq_refl)) as [Hsq Hn0].
+        pose proof (sqrt_ne0 _ Hsq Hn0) as Hs0.
+        assert (Hd : dot k v1 q = dot k v2 (fst un) / sqrtf (snd un)).
+        { unfold dot. rewrite (sumn_ext k _ (fun t => (v2 t * fst un t) * / sqrtf (snd un))).
+          - rewrite sumn_mul_r. rewrite fdiv_mul. reflexivity.
+          - intros t Ht. rewrite Hv, Hq by assumption. rewrite fdiv_mul. ring. }
+        rewrite Hd, Hv, Hq by assumption.
+        set (s := sqrtf (snd un)) in *. rewrite <- Hsq. field. assumption.
+    Qed.
+
+    Lemma Forall2_snoc {A B} (R : A -> B -> Prop) l l' x y :
+      Forall2 R l l' -> R x y -> Forall2 R (l ++ [x]) (l' ++ [y]).
+    Proof. intros H Hxy. apply Forall2_app; [assumption|constructor; [assumption|constructor]]. Qed.
+
+    Lemma mgs_equiv k Q U cols :
+      Forall2 (qrel k) Q U -> sqrt_ok (mgs_sf k U cols) ->
+      Forall2 (qrel k) (mgs sqrtf k Q cols) (mgs_sf k U cols).
+    Proof.
+      revert Q U. induction cols as [|v rest IH]; intros Q U HR Hs; cbn [mgs mgs_sf] in *; [assumption|].
+      apply IH; [|assumption].
+      assert (HsU : sqrt_ok U).
+      { intros x Hx. apply Hs. apply mgs_sf_incl. apply in_or_app. left. assumption. }
+      apply Forall2_snoc; [assumption|].
+      intros a Ha. cbn [fst snd]. unfold mgs_normalize. cbv zeta. rewrite memo_vec_at by assumption.
+      rewrite (orth_equiv k Q U v v HR HsU (fun _ _ => eq_refl) a Ha).
+      rewrite (dot_ext k (mgs_orth k Q v) (mgs_orth_sf k U v) (mgs_orth k Q v) (mgs_orth_sf k U v))
+        by (intros t Ht; apply (orth_equiv k Q U v v HR HsU (fun _ _ => eq_refl) t Ht)).
+      rewrite !fdiv_mul. ring.
+    Qed.
+
+    Lemma Forall2_skipn {A B} (R : A -> B -> Prop) n l l' :
+      Forall2 R l l' -> Forall2 R (skipn n l) (skipn n l').
+    Proof.
+      revert l l'. induction n as [|n IH]; intros l l' H; [assumption|].
+      destruct H; cbn [skipn]; [constructor|apply IH; assumption].
+    Qed.
+
+    Theorem hlle_local_sqrt_free k d (prev V : mat) a b :
+      gs_nondegenerate (hlle_gs_sf false k d prev V) ->
+      sqrt_ok (hlle_gs_sf false k d prev V) ->
+      gt_thr 0 = false ->
+      a < k -> b < k ->
+      hlle_local sqrtf gt_thr false k d prev V a b = hlle_local_sf false k d prev V a b.
+    Proof.
+      intros Hnd Hs Hthr Ha Hb.
+      unfold hlle_local, hlle_local_sf, hlle_local_of. cbv zeta.
+      pose proof (mgs_equiv k [] [] (cols_of k (hlle_ncols d) (hlle_Yprod false d prev V))
+                    (Forall2_nil _) Hs) as HR.
+      apply (Forall2_skipn _ (1 + d)) in HR.
+      assert (Htail : forall un, In un (skipn (1 + d) (hlle_gs_sf false k d prev V)) ->
+                                 sumn k (fst un) = 0 /\ sqrtf (snd un) * sqrtf (snd un) = snd un /\ snd un <> 0).
+      { intros un Hin. split.
+        - pose proof (hlle_tail_orth k d prev V un 0 Hnd Hin ltac:(lia)) as Hz.
+          unfold dot in Hz. rewrite <- Hz. apply sumn_ext. intros t Ht. unfold mcol.
+          destruct (hlle_Yprod_entries d prev V t) as [H0 _]. rewrite H0. ring.
+        - apply Hs. revert Hin. generalize (1 + d)%nat. generalize (hlle_gs_sf false k d prev V).
+          intros l n. revert l. induction n as [|n IHn]; intros l Hin; [assumption|].
+          destruct l; [contradiction|]. right. apply IHn. assumption. }
+      unfold hlle_gs_sf in *.
+      revert HR Htail.
+      generalize (skipn (1 + d) (mgs sqrtf k [] (cols_of k (hlle_ncols d) (hlle_Yprod false d prev V)))).
+      generalize (skipn (1 + d) (mgs_sf k [] (cols_of k (hlle_ncols d) (hlle_Yprod false d prev V)))).
+      intros Ul Ql HR. induction HR as [|q un Ql Ul Hq HR IH]; intros Htail; [reflexivity|].
+      unfold outer_sum, outer_sum_sf. cbn [map fold_right].
+      unfold outer_sum, outer_sum_sf in IH. rewrite IH by (intros x Hx; apply Htail; right; assumption).
+      f_equal.
+      destruct (Htail un (or_introl eq_refl)) as [Hsum [Hsq Hn0]].
+      pose proof (sqrt_ne0 _ Hsq Hn0) as Hs0.
+      assert (Hfix : hlle_colsum_fix gt_thr k q = q).
+      { unfold hlle_colsum_fix. cbv zeta.
+        assert (Hz : sumn k q = 0).
+        { rewrite (sumn_ext k q (fun t => fst un t * / sqrtf (snd un)))
+            by (intros t Ht; rewrite Hq by assumption; apply fdiv_mul).
+          rewrite sumn_mul_r, Hsum. ring. }
+        rewrite Hz, Hthr. reflexivity. }
+      rewrite Hfix, !Hq by assumption.
+      set (s := sqrtf (snd un)) in *. rewrite <- Hsq. field. assumption.
+    Qed.
+  End WithSqrt.
 End GsProof.
